@@ -189,6 +189,8 @@ class ProofPart:
 
     def _want(self):
         u = self.unit
+        if getattr(getattr(self, '_asm', None), 'exec_names', None) is not None:
+            return list(self._asm.exec_names)
         if hasattr(u, 'exec_funcs'):
             return list(u.exec_funcs(**self.kw))
         return list(getattr(u, 'EXEC_FUNCS', []))
@@ -224,6 +226,7 @@ class ProofPart:
         lost = [(it.name, w) for it in asm.items() for w in it.lost]
         for nm, w in lost:
             r.notes.append('lost hint anchor in %s: %s' % (nm, w))
+        self._asm = asm
         fn_by_name = {}
         for f in res.get('functions', []):
             fn_by_name[f['name'].split('::', 1)[-1]] = f
@@ -249,7 +252,9 @@ class ProofPart:
                 r.reason = 'vacuity-guard: exec functions not reported verified: %s' % missing
             # trusted-base allow-list
             allow = set(getattr(u, 'ALLOW_TRUSTED', []))
-            extra = [t for t in r.trusted if t not in allow]
+            import re as _re
+            rxs = [_re.compile(x) for x in getattr(u, 'ALLOW_TRUSTED_RX', [])]
+            extra = [t for t in r.trusted if t not in allow and not any(x.search(t) for x in rxs)]
             if extra:
                 r.status = 'undecided'
                 r.reason = 'trusted-base grew: %s' % extra
